@@ -567,35 +567,39 @@ fn main() {
             }
         }
     }
-    // the same wrapper chains on a build of the repository with its default feature set (another process)
-    match std::env::var("VERIF_C20_MIN_BIN") {
-        Ok(bin) => {
+    // the same wrapper chains on builds of the repository with reduced feature sets (other processes, built by ./check)
+    match std::env::var("VERIF_FEAT_BINS") {
+        Ok(bins) => {
             let seed_args: Vec<String> = (if tier.is_thorough() { (0..16).map(|i| seed * 1000 + i).collect::<Vec<u64>>() } else { (0..4).map(|i| seed * 4 + i).collect() }).iter().map(|s| s.to_string()).collect();
-            match std::process::Command::new(&bin).args(&seed_args).output() {
-                Ok(out) if out.status.success() => match serde_json::from_slice::<serde_json::Value>(&out.stdout) {
-                    Ok(v) => {
-                        rep.add("c20/minimal_features/wrapper_chains", v["chains"].as_u64().unwrap_or(0));
-                        rep.add("c20/minimal_features/wrapper_slots_checked", v["slots_checked"].as_u64().unwrap_or(0));
-                        rep.evaluations += v["chains"].as_u64().unwrap_or(0);
-                        for viol in v["violations"].as_array().cloned().unwrap_or_default() {
-                            rep.violate("C20", viol[0].as_str().unwrap_or("?").to_string(), viol[1].as_str().unwrap_or("").to_string(), json!({"build": "default features", "chain": viol[2]}));
+            for item in bins.split(';').filter(|s| !s.is_empty()) {
+                let (name, bin) = item.split_once('=').unwrap_or(("?", item));
+                match std::process::Command::new(bin).args(&seed_args).output() {
+                    Ok(out) if out.status.success() => match serde_json::from_slice::<serde_json::Value>(&out.stdout) {
+                        Ok(v) => {
+                            rep.add("c20/minimal_features/wrapper_chains", v["chains"].as_u64().unwrap_or(0));
+                            rep.add(&format!("c20/reduced_features/{}/wrapper_chains", name), v["chains"].as_u64().unwrap_or(0));
+                            rep.add("c20/minimal_features/wrapper_slots_checked", v["slots_checked"].as_u64().unwrap_or(0));
+                            rep.evaluations += v["chains"].as_u64().unwrap_or(0);
+                            for viol in v["violations"].as_array().cloned().unwrap_or_default() {
+                                rep.violate("C20", viol[0].as_str().unwrap_or("?").to_string(), viol[1].as_str().unwrap_or("").to_string(), json!({"build": name, "chain": viol[2]}));
+                            }
                         }
-                    }
-                    Err(e) => rep.inconclusive.push(format!("minimal-features run: unreadable output: {}", e)),
-                },
-                Ok(out) => rep.inconclusive.push(format!("minimal-features run failed: {} {}", out.status, String::from_utf8_lossy(&out.stderr).chars().take(300).collect::<String>())),
-                Err(e) => rep.inconclusive.push(format!("minimal-features run could not start: {}", e)),
+                        Err(e) => rep.inconclusive.push(format!("reduced-features run [{}]: unreadable output: {}", name, e)),
+                    },
+                    Ok(out) => rep.inconclusive.push(format!("reduced-features run [{}] failed: {} {}", name, out.status, String::from_utf8_lossy(&out.stderr).chars().take(300).collect::<String>())),
+                    Err(e) => rep.inconclusive.push(format!("reduced-features run [{}] could not start: {}", name, e)),
+                }
             }
         }
-        Err(_) => rep.inconclusive.push("VERIF_C20_MIN_BIN is not set: run this check through ./check, which builds the minimal-features harness".into()),
+        Err(_) => rep.inconclusive.push("VERIF_FEAT_BINS is not set: run this check through ./check, which builds the reduced-features harnesses".into()),
     }
     rep.rule = RULE.into();
     rep.exhaustive = Some(rep.violations.is_empty());
     rep.extra.insert("exhaustive_scope".into(), json!("all 110 ordered pairs of builder steps; all ordered ContractWrapper::new with_* selections (with both typed and _empty variants); the rest is sampled"));
-    rep.assume("the wrapper chains run twice: in this binary (cw-multi-test with staking, stargate, cosmwasm_2_2) and in vcheck-c20-min (default features)");
+    rep.assume("the wrapper chains run in this binary (cw-multi-test with staking, stargate, cosmwasm_2_2) and in vcheck-c20-min on builds with the feature sets default, cosmwasm_2_0, stargate, staking, staking+stargate+cosmwasm_1_4");
     rep.assume("builder chains start from AppBuilder::new() (Empty custom message/query types); new_custom differs only in type parameters");
     rep.assume("the stub Wasm and tagged modules answer with their tag; defaults are identified by the empty chain's probe and the documented default values");
-    for k in ["c20/builder_chains/len0", "c20/builder_chains/len1", "c20/builder_chains/len2", "c20/builder_chains/len3", "c20/builder_chains/len11", "c20/permutation_pairs_compared", "c20/wrapper_chains/len4", "c20/wrapper_slots_checked", "c20/wrapper_chains/with_a_step_given_twice", "c20/builder_chains/with_a_step_given_twice", "c20/minimal_features/wrapper_chains"] {
+    for k in ["c20/builder_chains/len0", "c20/builder_chains/len1", "c20/builder_chains/len2", "c20/builder_chains/len3", "c20/builder_chains/len11", "c20/permutation_pairs_compared", "c20/wrapper_chains/len4", "c20/wrapper_slots_checked", "c20/wrapper_chains/with_a_step_given_twice", "c20/builder_chains/with_a_step_given_twice", "c20/minimal_features/wrapper_chains", "c20/reduced_features/default/wrapper_chains", "c20/reduced_features/staking/wrapper_chains", "c20/reduced_features/stargate/wrapper_chains", "c20/reduced_features/cosmwasm_2_0/wrapper_chains"] {
         rep.require(k);
     }
     let exit = conclude(&ctx, rep, replay.as_deref());
